@@ -2,6 +2,7 @@ package props
 
 import (
 	"fmt"
+	"go/token"
 	"os"
 	"strings"
 
@@ -58,7 +59,20 @@ func runC09(c *an.Ctx) {
 				if os.Getenv("CZ_DEBUG_FACTS") != "" {
 					fmt.Fprintln(os.Stderr, "FACTS", key, f.Strings())
 				}
-				switch name {
+				// a private helper of the package with a single call site inside one of the two owning functions acts
+				// on the owner's behalf, under the facts of that call (the action loop extracted into its own method)
+				role := name
+				if role != "internal/corazawaf.(*Rule).matchVariable" && role != "internal/corazawaf.(*Rule).doEvaluate" && relPkg(fn) == pkgWAF && !token.IsExported(fn.Name()) {
+					sites := c.P.CallSites(func(x ssa.Instruction) bool { return an.IsCallTo(x, fn) })
+					if len(sites) == 1 {
+						on := an.RelName(sites[0].Fn)
+						if on == "internal/corazawaf.(*Rule).matchVariable" || on == "internal/corazawaf.(*Rule).doEvaluate" {
+							role = on
+							f = append(append(an.Facts{}, an.FactsAt(sites[0].Call)...), f...)
+						}
+					}
+				}
+				switch role {
 				case "internal/corazawaf.(*Rule).matchVariable":
 					ok := f.HasSuffix(".Function.Type()", "==", nondis)
 					if fg := foreignGuards(f, ".Function.Type()", "rangeindex", "r.actions"); ok && len(fg) > 0 {
@@ -233,6 +247,10 @@ func runC09(c *an.Ctx) {
 			default:
 				if onlyCalledFrom(c, fn, []string{"internal/corazawaf.(*Transaction).MatchRule"}, 0) {
 					c.Ok("R2", "HIGHEST_SEVERITY written in "+name, in.Pos(), "helper called only from MatchRule")
+					return
+				}
+				if onlyCalledFrom(c, fn, []string{"internal/corazawaf.(*WAF).newTransaction"}, 0) {
+					c.Ok("R2", "HIGHEST_SEVERITY written in "+name, in.Pos(), "initialisation helper called only from newTransaction")
 					return
 				}
 				c.Bad("R2", "HIGHEST_SEVERITY written in "+name, in.Pos(), "HIGHEST_SEVERITY is updated outside MatchRule: rules that did not fire (for instance a chain starter whose chain did not complete) can lower it")
@@ -519,28 +537,81 @@ func runC09(c *an.Ctx) {
 	// ---- R5 setvar shape
 	if fn := c.Fn("R5", "internal/actions.(*setvarFn).evaluateTxCollection"); fn != nil {
 		plus, minus := 0, 0
+		// the arithmetic is located by its operands (parsed current value, parsed delta), wherever it sits: directly
+		// inside the Set call of its branch, or computed into a local that the branches merge before one Set call.
+		// The condition it runs under is read from its block, or from the edge it enters a merge on.
+		an.Instrs(fn, func(in ssa.Instruction) {
+			b, ok := in.(*ssa.BinOp)
+			if !ok || (b.Op != token.ADD && b.Op != token.SUB) {
+				return
+			}
+			x, y := tempName.ReplaceAllString(an.Expr(b.X), ""), tempName.ReplaceAllString(an.Expr(b.Y), "")
+			if !(strings.Contains(x, "Atoi(") && strings.Contains(x, ".Get(key)[0]")) || !strings.Contains(y, "Atoi(value[1:])#0") {
+				return
+			}
+			var under []an.Facts
+			onlyPhis := len(*b.Referrers()) > 0
+			for _, ref := range *b.Referrers() {
+				phi, isPhi := ref.(*ssa.Phi)
+				if !isPhi {
+					onlyPhis = false
+					continue
+				}
+				for i, e := range phi.Edges {
+					if e != ssa.Value(b) {
+						continue
+					}
+					pred := phi.Block().Preds[i]
+					si := 0
+					for k, sc := range pred.Succs {
+						if sc == phi.Block() {
+							si = k
+						}
+					}
+					under = append(under, an.EdgeFacts(pred, si))
+				}
+			}
+			if !onlyPhis {
+				under = []an.Facts{an.FactsAtBlock(b.Block())}
+				if st := an.FactsAt(in); len(st) > 0 {
+					under = []an.Facts{st}
+				}
+			}
+			isPlus, isMinus := len(under) > 0, len(under) > 0
+			for _, f := range under {
+				if !f.Has("value[0]", "==", "43") {
+					isPlus = false
+				}
+				if !f.Has("value[0]", "!=", "43") {
+					isMinus = false
+				}
+			}
+			val := "(" + x + " " + b.Op.String() + " " + y + ")"
+			desc := ""
+			if len(under) > 0 {
+				desc = shortFacts(under[0])
+			}
+			if b.Op == token.ADD {
+				plus++
+				c.Check(isPlus, "R5", "setvar: '+' adds the parsed delta to the parsed current value", in.Pos(), val, "the addition is "+val+" under "+desc+": expected Atoi(current) + Atoi(value[1:]) under value[0]=='+'")
+			} else {
+				minus++
+				c.Check(isMinus, "R5", "setvar: '-' subtracts the parsed delta from the parsed current value", in.Pos(), val, "the subtraction is "+val+" under "+desc+": expected under value[0]!='+'")
+			}
+		})
+		// ... and what is stored is the decimal rendering of that result
+		nSet := 0
 		an.Instrs(fn, func(in ssa.Instruction) {
 			cc := an.CallOf(in)
 			if cc == nil || !cc.IsInvoke() || cc.Method.Name() != "Set" {
 				return
 			}
 			val := tempName.ReplaceAllString(an.Expr(cc.Args[1]), "")
-			f := an.FactsAt(in)
-			isPlus := f.Has("value[0]", "==", "43")
-			isMinus := f.Has("value[0]", "!=", "43")
-			cur := "strconv.Atoi(φ(\"\"|col.Get(key)[0]))#0"
-			_ = cur
-			switch {
-			case strings.Contains(val, "strconv.Itoa((") && strings.Contains(val, " + "):
-				plus++
-				okOperands := strings.Contains(val, "Atoi(value[1:])#0") && strings.Contains(val, ".Get(key)[0]")
-				c.Check(isPlus && okOperands, "R5", "setvar: '+' adds the parsed delta to the parsed current value", in.Pos(), val, "the addition branch is "+val+" under "+shortFacts(f)+": expected Itoa(Atoi(current) + Atoi(value[1:])) under value[0]=='+'")
-			case strings.Contains(val, "strconv.Itoa((") && strings.Contains(val, " - "):
-				minus++
-				okOperands := strings.Contains(val, "Atoi(value[1:])#0") && strings.Contains(val, ".Get(key)[0]")
-				c.Check(isMinus && okOperands, "R5", "setvar: '-' subtracts the parsed delta from the parsed current value", in.Pos(), val, "the subtraction branch is "+val+" under "+shortFacts(f))
+			if strings.Contains(val, "strconv.Itoa(") && strings.Contains(val, "Atoi(value[1:])#0") && strings.Contains(val, ".Get(key)[0]") {
+				nSet++
 			}
 		})
+		c.Check(nSet >= 1, "R5", "setvar stores the decimal rendering of the arithmetic result", fn.Pos(), fmt.Sprintf("%d Set call(s) of Itoa(current (+|-) delta)", nSet), "no Set call stores Itoa(Atoi(current) (+|-) Atoi(value[1:]))")
 		c.Check(plus == 1 && minus == 1, "R5", "setvar has one addition and one subtraction branch", fn.Pos(), "1 + 1", fmt.Sprintf("%d addition and %d subtraction branches found", plus, minus))
 		// the arithmetic branch is entered on a leading sign only
 		okEntry := false
